@@ -810,3 +810,8 @@ for _p in ('C15', 'C16'):
     PROPS[_p]['explanation'] = PROPS[_p]['explanation'] + (" The sequential content of ws/connection.go between the lock operations (which frame is written, which state bit is set, "
         "how the close deadline is computed) is pinned as text: wsConn_bodies_pinned compares every statement of every method, as re-read on this run, with the text the "
         "interleaving models were written against (no meaning attached: any textual change is reported until the file is brought up to date).")
+
+for _p, _ths in (('C17', ['FV.Tie.C17_Send_regenerated', 'FV.Tie.C17_SendRaw_sticky_regenerated']), ('C09', ['FV.Tie.C17_Send_regenerated'])):
+    PROPS[_p]['lean_modules'] = PROPS[_p]['lean_modules'] + ['FluentVerif.Tie.WsClientProps']
+    PROPS[_p]['theorems'] = PROPS[_p]['theorems'] + _ths
+    PROPS[_p]['explanation'] = PROPS[_p]['explanation'] + (" Restated over the regenerated websocket client bodies: " + ', '.join(t.split('.')[-1] for t in _ths) + ".")
